@@ -97,6 +97,8 @@ func propC08(r *Run) {
 				r.Count("fault:power-loss")
 			})
 		}
+		// concurrent readers in another process, interleaved at single file-system operations
+		w.readerClause(sc, hadOld, oldPW)
 		r.Add("crash-points", points)
 		r.Add("evaluations", points)
 		r.Steps += points
